@@ -300,6 +300,11 @@ func (c *modsetCache) callMods(fr *frame, fn *ssa.Function, cc *ssa.CallCommon, 
 			for _, ms := range ct.Mods {
 				c.modSpecKeys(ms, ptypes, m)
 			}
+			for _, mon := range ct.Monitors {
+				if g := e.db.Ghosts[mon.Ghost]; g != nil {
+					m.keys[vc.keyGhost(g)] = true
+				}
+			}
 			return
 		}
 		if callee != nil && len(callee.Blocks) > 0 {
